@@ -1,9 +1,16 @@
 package props
 
 import (
+	"encoding/json"
 	"fmt"
 	"math/big"
+	"sort"
+	"strings"
 	"testing"
+
+	"github.com/nspcc-dev/neo-go/pkg/smartcontract/manifest"
+	"github.com/nspcc-dev/neo-go/pkg/util"
+	"verif/harness/chainkit"
 
 	"github.com/nspcc-dev/neo-go/pkg/neotest"
 	"pgregory.net/rapid"
@@ -135,4 +142,159 @@ func classAmount(c string, b *big.Int) *big.Int {
 		return new(big.Int).Neg(pow2(63))
 	}
 	panic("class " + c)
+}
+
+// TestC02ABISweep: the statement of C02 does not depend on the method - whatever the executable compiled from
+// the working tree exports, a balance may only fall in a transaction its holder or the Alphabet witnessed.
+func TestC02ABISweep(t *testing.T) {
+	balABISweep(t, "C02")
+}
+
+// TestC01ABISweep: the same sweep, also with the Alphabet as signer, judged by the statement of C01.
+func TestC01ABISweep(t *testing.T) {
+	balABISweep(t, "C01")
+}
+
+func balABISweep(t *testing.T, prop string) {
+	theT = t
+	rule := "oracle of C02 per persisted transaction: every account whose balance fell witnessed it or the Alphabet signed"
+	if prop == "C01" {
+		rule = "signer sets additionally {the Alphabet}; oracle of C01 per persisted transaction: supply = sum of balances, no negative balance, supply moves only by a successful mint/burn of the stated amount, a refused invocation changes nothing, Transfer/TransferX pairs replay to the balances"
+	}
+	col := ev.New(prop, "abi-sweep",
+		"complete enumeration over the ABI of the Balance executable compiled from the working tree (every method, also ones no document mentions): argument tuples from typed pools (Hash160: three users, a contract, the Balance contract, an empty account and every lock account; Integer: -1, 0, 1, 5, the current epoch +-1, 2^30; byte strings: nil, short, a user's address; products above 400 tuples are strided) x signer sets {a stranger, user a1, a single committee member}, on a prepared state with funded users and two lock accounts (re-created when released); "+rule+"; non-trivial = every invocation that HALTs")
+	defer func() { col.Flush(true) }()
+	nshards, shard := envInt("VERIF_NSHARDS", 1), envInt("VERIF_SHARD_INDEX", 0)
+	var man manifest.Manifest
+	if err := json.Unmarshal(chainkit.Contract("balance").ManBytes, &man); err != nil {
+		t.Fatal(err)
+	}
+	methods := append([]manifest.Method{}, man.ABI.Methods...)
+	sort.Slice(methods, func(i, j int) bool {
+		return methods[i].Name+fmt.Sprint(len(methods[i].Parameters)) < methods[j].Name+fmt.Sprint(len(methods[j].Parameters))
+	})
+	for mi, md := range methods {
+		if mi%nshards != shard || strings.HasPrefix(md.Name, "_") {
+			continue
+		}
+		h := ev.NewHistory()
+		h.Op("method %s/%d", md.Name, len(md.Parameters))
+		evals, halts := 0, 0
+		ok := runCase(t, col, h, func() {
+			w := newBalWorld(3, h)
+			defer w.close()
+			alpha := []neotest.Signer{w.c.Alphabet}
+			stranger := chainkit.NamedUser("c02-abi-stranger")
+			w.names[stranger.ScriptHash()] = "stranger"
+			locks := []util.Uint160{}
+			prepare := func() {
+				st := w.state()
+				for _, u := range w.users {
+					if st.bal(u.ScriptHash().BytesBE()).Cmp(bi(200)) < 0 {
+						w.c.Invoke(alpha, w.bal, "mint", u.ScriptHash(), bi(1000), []byte("fund"))
+					}
+				}
+				live := 0
+				for _, l := range locks {
+					if st.bal(l.BytesBE()).Sign() > 0 {
+						live++
+					}
+				}
+				for live < 2 {
+					l := w.freshAddr()
+					if o := w.c.Invoke(alpha, w.bal, "lock", []byte("abi"), w.users[live%2].ScriptHash(), l, bi(50), w.epoch+3); !o.Halt {
+						panic(chainkit.HarnessError{Msg: "c02 abi sweep: lock: " + o.Fault})
+					}
+					locks = append(locks, l)
+					live++
+				}
+			}
+			prepare()
+			pool := func(typ string) []any {
+				switch typ {
+				case "Hash160":
+					out := []any{w.users[0].ScriptHash(), w.users[1].ScriptHash(), w.users[2].ScriptHash(), w.actor, w.bal, chainkit.NamedUser("bal-empty").ScriptHash()}
+					st := w.state()
+					for _, l := range locks {
+						if st.bal(l.BytesBE()).Sign() > 0 {
+							out = append(out, l)
+						}
+					}
+					return out
+				case "Integer":
+					return []any{int64(-1), int64(0), int64(1), int64(5), w.epoch - 1, w.epoch, w.epoch + 1, int64(1 << 30)}
+				case "Boolean":
+					return []any{true, false}
+				case "String":
+					return []any{"", "x"}
+				case "Array":
+					return []any{[]any{}}
+				default:
+					return []any{nil, []byte("d"), w.users[0].ScriptHash().BytesBE()}
+				}
+			}
+			pools := make([][]any, len(md.Parameters))
+			total := 1
+			for i, p := range md.Parameters {
+				pools[i] = pool(p.Type.String())
+				total *= len(pools[i])
+			}
+			stride := 1
+			if total > 400 {
+				stride = total/400 + 1
+				for stride%2 == 0 || stride%3 == 0 || stride%7 == 0 { // co-prime with the pool sizes: every value of every position occurs
+					stride++
+				}
+			}
+			signerSets := [][]neotest.Signer{{stranger}, {w.users[0]}, {w.c.Member(0)}}
+			if prop == "C01" {
+				signerSets = append(signerSets, alpha)
+			}
+			for idx := 0; idx < total; idx += stride {
+				args := make([]any, len(pools))
+				x := idx
+				for i := range pools {
+					args[i] = pools[i][x%len(pools[i])]
+					x /= len(pools[i])
+				}
+				for si, signers := range signerSets {
+					if si == 3 && md.Name == "lock" {
+						// the property's domain: the Alphabet locks onto fresh addresses only (the stateful group does that)
+						continue
+					}
+					op := &balOp{kind: md.Name, amount: bi(0), signers: signers}
+					if (md.Name == "mint" || md.Name == "burn") && len(args) > 1 {
+						if v, isInt := args[1].(int64); isInt {
+							op.amount = bi(v)
+						}
+					}
+					op.desc = fmt.Sprintf("%s%s signers=%s", md.Name, shortArgs(args), sig(signers, w.names))
+					pre := w.state()
+					o := w.c.Invoke(signers, w.bal, md.Name, args...)
+					post := w.state()
+					if o.Halt {
+						halts++
+						if halts <= 3 {
+							h.Op("%s -> %s", op.desc, o)
+						}
+					}
+					if prop == "C01" {
+						w.checkC01(pre, post, o, op)
+					} else {
+						w.checkC02(pre, post, o, op)
+					}
+					evals++
+				}
+				if idx%50 == 0 {
+					prepare()
+				}
+			}
+			h.NonTrivial()
+		})
+		col.Bulk(evals, halts)
+		if !ok {
+			return
+		}
+	}
+	col.SetExhaustive(true)
 }
